@@ -53,21 +53,44 @@ if suite:
   res["baseline_tests_now_failing"] = missing[:20]
   print("suite passed:", len(passed), "baseline tests failing with the change:", len(missing), missing[:5])
 
-# run checks against /repo with the patch applied
-st = subprocess.run(["git", "-C", "/repo", "status", "--porcelain"], capture_output=True, text=True).stdout.strip()
-assert not st, "/repo not clean: " + st
-ap = subprocess.run(["git", "-C", "/repo", "apply", os.path.join(out, "patch.diff")], capture_output=True, text=True)
-res["patch_applies_to_repo"] = ap.returncode == 0
+# run the quick checks against the change.  Default: a scratch copy of /repo's package with the patch applied, put first on
+# PYTHONPATH (other work may be using /repo at the same time); with --in-repo: git apply in /repo itself and undo afterwards.
 detected = {}
+if "--in-repo" in sys.argv:
+  st = subprocess.run(["git", "-C", "/repo", "status", "--porcelain"], capture_output=True, text=True).stdout.strip()
+  assert not st, "/repo not clean: " + st
+  ap = subprocess.run(["git", "-C", "/repo", "apply", os.path.join(out, "patch.diff")], capture_output=True, text=True)
+  res["patch_applies_to_repo"] = ap.returncode == 0
+  extra_env = {}
+else:
+  scratch = f"/tmp/ingest_{name}"
+  shutil.rmtree(scratch, ignore_errors=True)
+  os.makedirs(scratch)
+  shutil.copytree("/repo/mujoco_warp", os.path.join(scratch, "mujoco_warp"))
+  ap = subprocess.run(["patch", "-p1", "-s", "-i", os.path.join(out, "patch.diff")], cwd=scratch, capture_output=True, text=True)
+  res["patch_applies_to_repo"] = ap.returncode == 0
+  if ap.returncode != 0:
+    print("patch does not apply to the current /repo:", ap.stdout[-500:], ap.stderr[-500:])
+  extra_env = {"PYTHONPATH": scratch}
 try:
   if ap.returncode == 0:
     for p in props:
-      r = subprocess.run([PY, "-m", "vf.check", p, "--tier", "quick"], cwd="/verif", capture_output=True, text=True, timeout=3000, env=dict(os.environ, VF_NO_EVIDENCE="1"))
+      r = subprocess.run([PY, "-m", "vf.check", p, "--tier", "quick"], cwd="/verif", capture_output=True, text=True, timeout=3000, env=dict(os.environ, VF_NO_EVIDENCE="1", **extra_env))
       lines = [l for l in r.stdout.splitlines() if l.startswith("VIOLATION") or l.startswith("[")]
       detected[p] = dict(exit=r.returncode, lines=lines[:3])
       print(p, "exit", r.returncode, lines[:2])
+      # replay files written by a run against a mutant do not belong to the unchanged tree
+      for l in lines:
+        if l.startswith("VIOLATION") and "replay=" in l:
+          try:
+            os.remove(l.split("replay=", 1)[1].strip())
+          except OSError:
+            pass
 finally:
-  subprocess.run(["git", "-C", "/repo", "checkout", "--", "."], check=True)
+  if "--in-repo" in sys.argv:
+    subprocess.run(["git", "-C", "/repo", "checkout", "--", "."], check=True)
+  else:
+    shutil.rmtree(scratch, ignore_errors=True)
 res["checks"] = detected
 meta["verification"] = res
 json.dump(meta, open(os.path.join(out, "meta.json"), "w"), indent=1)
